@@ -265,6 +265,21 @@ def handled(rng, tier):
             fails.append(dict(clause='handled_function_keeps_ltype', signature=name)); continue
         if r.tensor().shape != ref.shape or not torch.equal(r.tensor(), ref):
             fails.append(dict(clause='handled_function_same_items', signature=name))
+    # auxiliary operands: the result takes the ltype of the tensor operated on, whatever the second operand is (a LieTensor of another
+    # ltype with the same item width, or a plain tensor)
+    aux = {'sim3 LieTensor': pp.randn_sim3(2, 3, dtype=d), 'plain tensor': torch.randn(2, 3, 7, dtype=d)}
+    for name in ('view_as', 'expand_as', 'index_copy', 'select_scatter', 'index_put'):
+        if name not in HANDLED_FUNCTIONS: continue
+        for what, U in aux.items():
+            try:
+                r = calls[name](X, U); ref = calls[name](X.tensor(), U.tensor() if hasattr(U, 'ltype') else U)
+            except Exception as e:
+                fails.append(dict(clause='handled_function_raises', signature=f'{name} with a {what} operand', error=f'{type(e).__name__}: {e}'[:160])); continue
+            evals += 1
+            if not isinstance(r, pp.LieTensor) or getattr(r, 'ltype', None) is not pp.SE3_type:
+                fails.append(dict(clause='handled_function_keeps_ltype', signature=f'{name} with a {what} operand', got=str(getattr(r, 'ltype', None)))); continue
+            if r.tensor().shape != ref.shape or not torch.equal(r.tensor(), ref):
+                fails.append(dict(clause='handled_function_same_items', signature=f'{name} with a {what} operand'))
     # in-place members
     Z = X.clone(); Z[0] = Y[0]; evals += 1
     if not torch.equal(Z.tensor()[0], Y.tensor()[0]) or Z.ltype is not pp.SE3_type: fails.append(dict(clause='setitem', signature='__setitem__'))
